@@ -94,8 +94,8 @@ pub fn families() -> Vec<Family> {
         }
     }
     for var in 0..N_FMT_VARIANTS {
-        v.push(fam(format!("display/variant{}/p=0", var), each(&|w| Op::Fmt { a: (w, 1), var, w: 8, p: 0, pauses: vec![], err_at: 0 })));
-        v.push(fam(format!("display/variant{}/p=2", var), each(&|w| Op::Fmt { a: (w, 3), var, w: 3, p: 2, pauses: vec![], err_at: 0 })));
+        v.push(fam(format!("display/variant{}/p=0", var), each(&|w| Op::Fmt { a: (w, 1), var, w: 8, p: 0, pauses: vec![], err_at: 0, reent: false })));
+        v.push(fam(format!("display/variant{}/p=2", var), each(&|w| Op::Fmt { a: (w, 3), var, w: 3, p: 2, pauses: vec![], err_at: 0, reent: false })));
     }
     let _ = IntTy::U8;
     v
